@@ -106,25 +106,24 @@ impl Compile for NumberLoop {
 
         let end_loop_register = state.poll_loop_register();
 
+        // Both bounds are evaluated before the counter is written: the end bound may mention a variable of
+        // the counter's name (`from 0 to n, n`), which is the variable that exists so far.
+        let start_register = state.poll_loop_register();
+
+        result.push(instruction!(store_fast start_register));
+        result.append(&mut val_end);
+        result.push(instruction!(store_fast end_loop_register));
+        result.push(instruction!(load_fast start_register));
+
         if self.name_is_collision {
-            // The counter is a variable that already exists, and the end bound may mention it
-            // (`from 0 to n, n`): both bounds are evaluated before the counter is written. It is
-            // assigned in place, so that a function that captured it keeps seeing it
-            // (`store_fast` would rebind the name to a new cell).
-            let start_register = state.poll_loop_register();
-
-            result.push(instruction!(store_fast start_register));
-            result.append(&mut val_end);
-            result.push(instruction!(store_fast end_loop_register));
-            result.push(instruction!(load_fast start_register));
+            // The counter is a variable that already exists. It is assigned in place, so that a function
+            // that captured it keeps seeing it (`store_fast` would rebind the name to a new cell).
             result.push(instruction!(store loop_identity));
-
-            start_register.free(state);
         } else {
             result.push(instruction!(store_fast loop_identity));
-            result.append(&mut val_end);
-            result.push(instruction!(store_fast end_loop_register));
         }
+
+        start_register.free(state);
 
         // ^^^ done with bounds init
 
